@@ -20,15 +20,20 @@ const semicolon = ";" // From grpcinterceptors.go in onos-lib-go
 // TODO replace the following with fine grained RBAC using OpenPolicyAgent Rego in 2021 Q2
 func TemporaryEvaluate(md metautils.NiceMD) error {
 	adminGroups := os.Getenv("ADMINGROUPS")
-	var match bool
-	for _, g := range strings.Split(md.Get("groups"), semicolon) {
-		if strings.Contains(adminGroups, g) {
-			match = true
-			break
+	// The caller must hold at least one group that IS one of the (comma separated) administrator groups: a
+	// group that is merely a piece of the variable's text ("Admin", "", "ROCAdmin,Enterprise") does not count.
+	// Groups arrive as one metadata value per group or as one ';'-joined value.
+	for _, value := range md["groups"] {
+		for _, g := range strings.Split(value, semicolon) {
+			if g == "" {
+				continue
+			}
+			for _, adminGroup := range strings.Split(adminGroups, ",") {
+				if g == strings.TrimSpace(adminGroup) {
+					return nil
+				}
+			}
 		}
 	}
-	if !match {
-		return status.Errorf(codes.Unauthenticated, "Set allowed only for %s", adminGroups)
-	}
-	return nil
+	return status.Errorf(codes.Unauthenticated, "Set allowed only for %s", adminGroups)
 }
